@@ -648,3 +648,25 @@ class FxpAssertRange(_Fxp):
         tied = And(c.tied(x), *[c.tied(o) for o in self._ops])
         return {"E.lower": Implies(And(on(c), tied, sm), self._lo <= X),
                 "E.upper_weak": Implies(And(on(c), tied, sm), X <= self._hi)}
+
+
+@register
+class FxpRemoveScaling(_Fxp):
+    """remove_scaling(v): representation / R, for a plain representation and for a secret one (which is opened)"""
+    name = "pysnark.fixedpoint:LinCombFxp.remove_scaling"
+    op = "remove_scaling"
+
+    def configs(self, tier):
+        return [dict(mode="plain", kind=k, res=r, bits=4) for r in RES + (8,) for k in ("lc", "int")]
+
+    def setup(self, c, cfg):
+        apply_mode(c, cfg["mode"], bitlength=cfg["bits"])
+        c.w.modules["pysnark.fixedpoint"].resolution = cfg["res"]
+        v = c.operand("x") if cfg["kind"] == "lc" else SymInt(z3.Int("s_v"))
+        return c.LinCombFxp.remove_scaling, (v,), {}
+
+    def post(self, c, r, v):
+        R = 1 << c.cfg["res"]
+        ok = isinstance(r, SymRat)
+        rep = c.v(v) if hasattr(v, "lc") else term(v)
+        return {"V.kind": ok, "V.value": ok and And(r.num == rep, r.den == R)}
